@@ -150,7 +150,8 @@ def dispOp (args : List String) : String :=
   match kv args "kind", kv args "codecs", (kv args "major").bind String.toNat?, (kv args "method").bind hexArg,
         (kv args "ct").bind hexArg, (kv args "procedure").bind hexArg with
   | some kind, some codecs, some major, some method, some ct, some proc =>
-    let cfg : HandlerCfg := { kind := parseKind kind, codecs := namesArg codecs, handleGRPC := true, handleGRPCWeb := true }
+    -- `WithCodec` with a codec whose name is empty is a documented no-op: such a codec is never registered
+    let cfg : HandlerCfg := { kind := parseKind kind, codecs := (namesArg codecs).filter (· ≠ []), handleGRPC := true, handleGRPCWeb := true }
     match dispatch cfg major method ct with
     | .httpVersionNotSupported => "505"
     | .methodNotAllowed => "405 allow=POST"
